@@ -1,4 +1,4 @@
-import QipVerif.Lemmas.SimKetCompact
+import QipVerif.Lemmas.SimKetResolve
 /-!
 # C01 — gate-level evolution equals the ordered product of the gates' matrices
 
@@ -238,6 +238,131 @@ theorem oracles_legal (a b : List ℕ) :
     ((ordSorted a b).Nodup ∧ ∀ x, x ∈ ordSorted a b ↔ x ∈ a ∨ x ∈ b) ∧
     ((ordRev a b).Nodup ∧ ∀ x, x ∈ ordRev a b ↔ x ∈ a ∨ x ∈ b) :=
   ⟨ordSorted_legal a b, ordRev_legal a b⟩
+
+/-! ## From the gate objects to the matrix steps: `get_all_qubits`, GLOBALPHASE, `_get_gate_unitary` with the
+user's objects (Model/SimKet.lean (f)); `A` is the opaque type of `arg_value`, the user's function any function -/
+
+/-- **The lookup returns what the user supplied.**  For every library, every user table and every gate
+object whose name is in the table (first entry `u`; GLOBALPHASE is tested before the table): with
+`controls` given the gate is refused; otherwise the step is the user's operator placed on `targets` —
+the stored operator for a `Qobj`, `func()` for a function without parameter, `func(arg_value)` for a
+function of one parameter — whatever the library would have said for that name (shadowing); functions
+of more parameters and other objects are refused. -/
+theorem resolve_user_spec {A : Type} (lib : Library A ℂ) (ug : List (UserGate A ℂ)) (r : GateReq A) (u : UserGate A ℂ)
+    (hname : r.name ≠ "GLOBALPHASE") (hf : (ug.find? fun u => u.name == r.name) = some u) :
+    resolveGate lib ug r =
+      if r.controlsNone = false then .error .userControls else
+      match u.kind with
+      | .oper => .ok (.gate r.targets u.m (u.yield none))
+      | .fn 0 => .ok (.gate r.targets u.m (u.yield none))
+      | .fn 1 => .ok (.gate r.targets u.m (u.yield (some r.arg)))
+      | .fn _ => .error .userParams
+      | .other => .error .userNeither := by
+  rw [resolveGate_user lib ug r u hname hf]
+  cases hk : u.kind with
+  | oper => simp [userStep, hk]
+  | other => rfl
+  | fn n =>
+    match n with
+    | 0 => simp [userStep, hk]
+    | 1 => simp [userStep, hk]
+    | _ + 2 => rfl
+-- non-vacuity: a table with a one-parameter function (here `a ↦ [[a, 0], [0, 1]]`) shadowing the library's X
+example : resolveGate (⟨fun _ _ => some (1, [[0, 1], [1, 0]]), fun _ => 1⟩ : Library ℂ ℂ)
+      [⟨"X", .fn 1, 1, fun a => [[a.getD 0, 0], [0, 1]]⟩] ⟨"X", [2], [], true, Complex.I⟩ =
+    .ok (.gate [2] 1 [[Complex.I, 0], [0, 1]]) := by
+  rw [resolve_user_spec _ _ _ ⟨"X", .fn 1, 1, fun a => [[a.getD 0, 0], [0, 1]]⟩ (by decide) (by simp)]
+  simp
+
+/-- a name absent from the user table is resolved by the library, placed on `controls + targets`
+(`targets` when `controls is None`); GLOBALPHASE is the scalar whatever the tables say -/
+theorem resolve_library_spec {A : Type} (lib : Library A ℂ) (ug : List (UserGate A ℂ)) (r : GateReq A) :
+    (r.name = "GLOBALPHASE" → resolveGate lib ug r = .ok (.phase (lib.phase r.arg))) ∧
+    (r.name ≠ "GLOBALPHASE" → (ug.find? fun u => u.name == r.name) = none →
+      resolveGate lib ug r =
+        match lib.compact r.name r.arg with
+        | some (m, U) => .ok (.gate (if r.controlsNone then r.targets else r.controls ++ r.targets) m U)
+        | none => .error .unknownGate) :=
+  ⟨resolveGate_phase lib ug r, fun h1 h2 =>
+    (resolveGate_library lib ug r h1 h2).trans (by cases lib.compact r.name r.arg <;> rfl)⟩
+example : resolveGate (⟨fun _ _ => some (2, []), fun _ => 1⟩ : Library ℂ ℂ) [] ⟨"CNOT", [0], [3], false, 0⟩ =
+    .ok (.gate [3, 0] 2 []) := by
+  simp [resolveGate, getGateUnitary, GateReq.allQubits]
+
+/-- **Circuits of user gates, end to end**: for every register size, user table and list of gate objects
+naming table entries (stored operators, 0- and 1-parameter functions; `controls is None`; targets
+duplicate-free, in range, as many as the operator has qubits; the yielded rows of length `2^m`): every
+lookup succeeds, the steps are the user's operators on the named targets, the state-vector run succeeds
+and returns `(ordered product of the embedded user matrices).mulVec ψ`. -/
+theorem user_circuit_run_eq_den {A : Type} (N : ℕ) (lib : Library A ℂ) (ug : List (UserGate A ℂ))
+    (rs : List (GateReq A × UserGate A ℂ)) (h : ∀ p ∈ rs, UserCircuitOK N ug p.1 p.2) (amps : List ℂ) :
+    ∃ T', resolveAll lib ug (rs.map (·.1)) = .ok (rs.map fun p => userStep p.2 p.1) ∧
+      runKet opsC (rs.map fun p => userStep p.2 p.1) (ketTensor N amps) = .ok T' ∧
+      ketOf N T' = (denP ((rs.map fun p => userStep p.2 p.1).map (toPGate N))).mulVec (ketOf N (ketTensor N amps)) ∧
+      ∀ p (hp : p ∈ rs), (toPGate N (userStep p.2 p.1)).den =
+        (tgOfList N p.1.targets (h p hp).nodup (h p hp).range).embed
+          (gateMat p.1.targets.length (p.2.yield (match p.2.kind with | .fn 1 => some p.1.arg | _ => none))) := by
+  obtain ⟨h1, h2⟩ := resolveAll_user N lib ug rs h
+  obtain ⟨T', g1, _, g3⟩ := ket_run N _ h2 amps
+  exact ⟨T', h1, g1, g3, fun p hp => toPGate_gate_den N _ _ _ (h p hp).nodup (h p hp).range⟩
+-- non-vacuity: a 1-parameter user function on qubit 2 of 3
+example : UserCircuitOK 3 [(⟨"UA", .fn 1, 1, fun a => [[a.getD 0, 0], [0, 1]]⟩ : UserGate ℂ ℂ)]
+    ⟨"UA", [2], [], true, Complex.I⟩ ⟨"UA", .fn 1, 1, fun a => [[a.getD 0, 0], [0, 1]]⟩ :=
+  ⟨by decide, by simp, rfl, Or.inr (Or.inr rfl), by simp, by simp, rfl, by intro a row hr; simp at hr; rcases hr with rfl | rfl <;> rfl⟩
+
+/-! ## `propagators(expand, ignore_measurement)`, the right-to-left product, the `expand=False` pipeline -/
+
+/-- **`ignore_measurement`**: with the flag the propagators are those of the circuit without its
+measurements; without it a circuit containing a measurement is refused (TypeError); a measurement-free
+circuit is unaffected by the flag. -/
+theorem propagators_measurement_spec {α : Type} (o : Ops α) (N : ℕ) (e : Bool) (items : List (Item α)) :
+    propagatorsM o N e true items = propagators o N e (items.filterMap Item.gate?) ∧
+    (Item.meas ∈ items → propagatorsM o N e false items = .error .measurement) ∧
+    (Item.meas ∉ items → ∀ ig, propagatorsM o N e ig items = propagators o N e (items.filterMap Item.gate?) ∧
+      (items.filterMap Item.gate?).map Item.op = items) := by
+  refine ⟨propagatorsM_ignore o N e items, propagatorsM_refuse o N e items, fun h ig => ?_⟩
+  have h2 := filterMap_gate_nomeas items h
+  refine ⟨?_, h2⟩
+  conv_lhs => rw [← h2]
+  exact propagatorsM_nomeas o N e ig _
+example : (match propagatorsM CycD.ops 1 true false [.op (.phase CycD.one), .meas] with
+      | .error .measurement => true | _ => false) = true ∧
+    (propagatorsM CycD.ops 1 true true [.op (.phase CycD.one), .meas]).toOption.map (·.length) = some 1 := by
+  decide +kernel
+
+/-- with `ignore_measurement=True` the left-to-right product of the expanded propagators is the ordered
+product of the circuit's gates (its measurements dropped) -/
+theorem propagators_ignore_product_eq_den (N : ℕ) (items : List (Item ℂ))
+    (hw : ∀ op ∈ items.filterMap Item.gate?, WFOp N op) (hne : items.filterMap Item.gate? ≠ []) :
+    ∃ l P, propagatorsM opsC N true true items = .ok l ∧ seqProduct opsC true none l = some P ∧
+      matOf N P = denP ((items.filterMap Item.gate?).map (toPGate N)) := by
+  rw [propagatorsM_ignore]
+  exact propagators_product N _ hw hne
+
+/-- **`left_to_right=False`**: the expanded propagators multiplied right to left (`U_overall * U`) give the
+ordered product of the *reversed* circuit, `U₁ U₂ ⋯ Uₙ`. -/
+theorem propagators_product_rtl_eq_den_reverse (N : ℕ) (ops : List (Op ℂ)) (hw : ∀ op ∈ ops, WFOp N op) (hne : ops ≠ []) :
+    ∃ l P, propagators opsC N true ops = .ok l ∧ seqProduct opsC false none l = some P ∧
+      matOf N P = denP (ops.reverse.map (toPGate N)) :=
+  propagators_product_rtl N ops hw hne
+
+/-- `propagators(expand=False)` never fails and returns the steps' own matrices: the rows as given for a
+gate, the full-register scalar matrix for GLOBALPHASE (not "a number" as the docstring says) -/
+theorem propagators_compact_eq (N : ℕ) (ops : List (Op ℂ)) :
+    propagators opsC N false ops = .ok (ops.map fun
+      | .phase c => FMat.smul opsC c (FMat.ident opsC (2 ^ N))
+      | .gate _ m U => FMat.ofRows opsC (2 ^ m) U) :=
+  propagators_compact N ops
+
+/-- **The `expand=False` pipeline**: `gate_sequence_product(qc.propagators(expand=False), inds_list = the
+qubits of each gate, expand=True)` succeeds for every non-empty well-placed circuit, returns as index
+list the sorted distinct qubits the circuit names, and its matrix placed on them is the ordered product. -/
+theorem compact_pipeline_eq_den (N : ℕ) (ops : List (Op ℂ)) (hne : ops ≠ []) (hw : ∀ op ∈ ops, WFOp N op) :
+    ∃ l R, propagators opsC N false ops = .ok l ∧
+      compactProduct opsC ordSorted (l.zip (ops.map (stepQubits N))) =
+        .ok (R, sortDedup (ops.map (stepQubits N)).flatten) ∧
+      embL N (sortDedup (ops.map (stepQubits N)).flatten) R = denP (ops.map (toPGate N)) :=
+  compact_pipeline N ops hne hw
 
 /-! ### Counter-example for an unsorted order (the unrepaired code on CPython with qubit labels ≥ 8) -/
 
